@@ -46,6 +46,18 @@ func init() {
 			}
 		},
 	}
+	plans["C01"] = &Plan{
+		Level: "exploration",
+		Rule: "case = (destination type, configuration, initial destination, document). Types: random reflect-built types (scalars of every width, json.Number/RawMessage/[]byte, arrays, slices, maps with every supported key kind, pointers, interface{}, structs with random tags/embedding/unexported fields, >50 fields) mixed with a hand-written catalogue of ~40 named types (Unmarshaler/TextUnmarshaler on value and pointer receivers, recursive types, embedding conflicts, tag edge cases, case-folding names); every distinct type is a freshly compiled decoder program. " +
+			"Documents: encoding/json's own output for a random value of the type, re-emitted with labelled mutations (unknown/duplicate/dropped/null fields, wrong-kind values, extra/missing elements, case variants and \\u-escaped keys, number re-spellings and overflows, white space; string-content defects only at stored positions under ConfigStd) — expectation: exact agreement with encoding/json on error-or-not and on the deep value; plus arbitrary byte edits and random documents — expectation: the two bounds of the leniency clause. A third of the cases decode into a pre-populated destination. distinct = hash(type descriptor, config, document); non-trivial = document length >= 2",
+		Assumptions: stdAssumptions, MinEvals: 20000, MinEvalsThorough: 1000000,
+		Runs: func(string) []*Run {
+			return []*Run{
+				{Name: "jit", Flavor: "plain", NBatch: 16, TimeoutS: n(900, 3000)},
+				{Name: "jit-sse", Flavor: "plain", NBatch: n(2, 8), Env: []string{"SONIC_MODE=noavx2"}, TimeoutS: n(900, 3000)},
+			}
+		},
+	}
 	plans["C02"] = &Plan{
 		Level: "exploration",
 		Rule: "documents = (a) block sweep: 6 document shapes x string/white-space length 0..L x position x 11 special byte groups (quote, backslash, escaped quote, control, ...) so that every critical byte meets every offset of a 16/32/64-byte SIMD block (L=70 quick, 140 thorough); (b) unterminated strings of every length 0..2L+70 x 5 fillers x 6 prefixes; (c) seeded structure-random valid documents, 1- and 2-edit mutations, every kind of truncation, token soups, number spellings; (d) nesting 4094..10001. " +
